@@ -5,13 +5,14 @@ PROPS["C34"] = dict(
     functions=["revm::JournaledState::load_account (crates/revm/src/journaled_state.rs): every path of its MIR body",
                "revm::JournaledState::sload (crates/revm/src/journaled_state.rs): every path of its MIR body (sstore reads the slot through it)",
                "revm::handler::mainnet::pre_execution::load_accounts (generic body): coinbase / BLOCKHASH_STORAGE_ADDRESS pre-warming gates",
+               "revm::JournaledState::initial_account_load (access-list / authority pre-loading): the loop-free prefix and ONE iteration of the key loop (back edges cut)",
                "revm_primitives::Account::{mark_warm, mark_cold, new_not_existing}, From<AccountInfo> for Account, EvmStorageSlot::{new, new_changed, mark_warm, mark_cold} "
                "(crates/primitives/src/state.rs): all 256 status bytes, all slot values"],
     bounds="load_account: every path x (entry present?, result of mark_warm, result of warm_preloaded_addresses.contains); sload: every path x (slot present?, result of "
            "mark_warm, account created in this transaction?); load_accounts: every path x (SHANGHAI enabled?, PRAGUE enabled?); one step from an arbitrary journal state; "
            "mark_warm / mark_cold: all 2^8 status bytes, all 2^512 slot value pairs",
-    outside="forgetting on revert (journal_revert: AccountWarmed / StorageWarmed / AccountCreated arms - a loop over the journal and hash maps), access-list and "
-            "EIP-7702 authority pre-loading (initial_account_load loops over keys), precompile addresses in warm_preloaded_addresses (set_precompiles), that the "
+    outside="forgetting on revert (journal_revert: AccountWarmed / StorageWarmed / AccountCreated arms - a loop over the journal and hash maps), which addresses "
+            "and keys load_access_list / the EIP-7702 handler hand to initial_account_load, precompile addresses in warm_preloaded_addresses (set_precompiles), that the "
             "instructions charge the price matching the reported flag (the price maps themselves are decided under C14), the per-transaction statement",
     assumptions=["std HashMap::entry / HashSet::contains / Vec::push behave as documented (they are uninterpreted in the encoding: their results are free variables, "
                  "the policy is checked for every value of them)",
@@ -29,8 +30,9 @@ CLAIMS["C34"] = dict(
          "lookups and flags) and z3/cvc5 compare what they report with the access rules: load_account reports cold exactly for an entry that carries the cold mark or "
          "an absent address that is not pre-warmed, sload for a slot that carries the mark or is absent; a cold report is journalled exactly once with the right entry "
          "kind, an absent slot is inserted with the value returned (zero without a database read for an account created in this transaction); load_accounts pre-warms "
-         "the coinbase exactly from SHANGHAI and the block-hash contract exactly from PRAGUE. CBMC decides mark_warm/mark_cold for every status byte and slot.",
-    note="Partial: the first-access half of the property on the kernel functions. Forgetting on revert (journal_revert), access-list / authority / precompile pre-warming "
+         "the coinbase exactly from SHANGHAI and the block-hash contract exactly from PRAGUE; initial_account_load never returns successfully without having walked the key list, "
+         "reuses a present account, and per key keeps a present slot and loads an absent one from the database for exactly (address, key). CBMC decides mark_warm/mark_cold for every status byte and slot.",
+    note="Partial: the first-access half of the property on the kernel functions. Forgetting on revert (journal_revert), which entries the access-list / authority handlers pass on, precompile pre-warming "
          "and the link from the reported flag to the gas charged by each instruction are outside (journal loops and hash maps, DESIGN §2); warm/cold prices are under C14.",
     technique="MIR provenance-flow symbolic execution + SMT path query (z3+cvc5) for load_account / sload / load_accounts; Kani/CBMC for the cold-mark bit operations; native replay",
     engine="kani-cbmc + smt-mir",
